@@ -36,6 +36,8 @@ class Path:
 
 def model_to_assign(ctx, model):
     out = {}
+    if model is None:
+        return out
     for n, (v, _, _) in ctx.vars.items():
         val = model.eval(v, model_completion=False)
         if val is None or z3.is_const(val) and val.decl().kind() == z3.Z3_OP_UNINTERPRETED:
